@@ -5,6 +5,8 @@
 #include <stdlib.h>
 #include <string.h>
 #include <vector>
+#include <cstdarg>
+#include <cstdio>
 #include <string>
 
 namespace nvctl {
@@ -176,6 +178,45 @@ std::string GuardedPosition(std::string text, const std::string& name) {
     return text;
   text.replace(pos - 3, name.size() + 3, "");
   return text;
+}
+
+// --- FMT control: text that came from a file used as a printf format ---------------------------------
+void Report(const char* msg, ...) {
+  va_list ap;
+  va_start(ap, msg);
+  vfprintf(stderr, msg, ap);
+  va_end(ap);
+}
+
+void DataAsFormat(const std::string& line_from_file) {
+  std::string message = "bad line: " + line_from_file;
+  Report(message.c_str());
+}
+
+// --- FMT control (negative): the data is an argument of a literal format ----------------------------
+void DataAsArgument(const std::string& line_from_file, bool verbose) {
+  const char* format = verbose ? "bad line: %s (ignored)\n" : "bad line: %s\n";
+  Report(format, line_from_file.c_str());
+  Report("bad line: %s\n", line_from_file.c_str());
+}
+
+// --- read-loop control: a loop that only asks feof() spins forever on a read error -----------------
+size_t SlurpIgnoringErrors(FILE* f, char* out, size_t cap) {
+  size_t size = 0;
+  while (!feof(f)) {
+    size += fread(out + size, 1, cap - size, f);
+  }
+  return size;
+}
+
+// --- read-loop control (negative) -------------------------------------------------------------------
+size_t SlurpUntilShortRead(FILE* f, char* out, size_t cap) {
+  size_t size = 0;
+  size_t len;
+  while (!feof(f) && (len = fread(out + size, 1, cap - size, f)) > 0) {
+    size += len;
+  }
+  return size;
 }
 
 }  // namespace nvctl
